@@ -82,3 +82,16 @@ def check(ctx):
         ctx.violation("foreign thread in from_thread.run: " + "; ".join(mm["bad"]), mm)
     ctx.sample({"behaviour": behs[0]["acts"][:6]})
     ctx.sample({"foreign_thread_behaviour": foreign[0]["acts"][:8]})
+    # the Trio glue installed lazily, by a first extraction made on Trio's thread while no task is current
+    lpath = d / "lazyglue_out.json"
+    p, _ = run([VENV_PY, str(VERIF / "harness/drivers/trio_lazyglue.py"), str(lpath)], timeout=300, env=child_env("3.12"))
+    if p.returncode != 0:
+        raise MachineryError(f"lazy-glue scenario failed: {p.stderr[-1500:]}")
+    lo = json.loads(lpath.read_text())
+    if not lo["ran"]:
+        raise MachineryError("lazy-glue scenario did not run")
+    ctx.replays += 1
+    for b in lo["bad"]:
+        if b.startswith("harness"):
+            raise MachineryError(b)
+        ctx.violation("stackscope imported before trio, first extraction from an Instrument hook: " + b, None)
